@@ -48,6 +48,30 @@ static void die(const char *msg, sexp ctx, sexp x) {
 }
 
 /* (%verif op [arg]) */
+static void vh_who_refers(sexp ctx, sexp target, int depth) {
+  sexp_heap h2; sexp p2, end2; sexp_free_list q2, r2;
+  if (depth > 4) return;
+  for (h2 = sexp_context_heap(ctx); h2; h2 = h2->next) {
+    p2 = sexp_heap_first_block(h2); end2 = sexp_heap_end(h2); q2 = h2->free_list;
+    while (p2 < end2) {
+      sexp t2; sexp *sl; size_t n2, k2;
+      for (r2 = q2->next; r2 && ((char *)r2 < (char *)p2); q2 = r2, r2 = r2->next) ;
+      if ((char *)r2 == (char *)p2) { p2 = (sexp)(((char *)p2) + r2->size); continue; }
+      t2 = sexp_object_type(ctx, p2);
+      sl = (sexp *)(((char *)p2) + sexp_type_field_base(t2));
+      n2 = sexp_type_num_slots_of_object(t2, p2);
+      if (sexp_pointer_tag(p2) == SEXP_STACK) n2 = sexp_stack_top(p2);
+      for (k2 = 0; k2 < n2; k2++) if (sl[k2] == target) {
+        printf(";;WHO%*s %p <- %p tag=%u slot=%lu nslots=%lu", depth * 2, "", (void *)target, (void *)p2, (unsigned)sexp_pointer_tag(p2), (unsigned long)k2, (unsigned long)n2);
+        if (sexp_procedurep(p2) && sexp_bytecodep(sexp_procedure_code(p2))) { printf(" proc-name="); sexp_write(ctx, sexp_bytecode_name(sexp_procedure_code(p2)), sexp_current_output_port(ctx)); }
+        printf("\n");
+        if (sexp_pointer_tag(p2) != SEXP_STACK && sexp_pointer_tag(p2) != SEXP_CONTEXT) vh_who_refers(ctx, p2, depth + 1);
+      }
+      p2 = (sexp)(((char *)p2) + sexp_heap_align(sexp_allocated_bytes(ctx, p2)));
+    }
+  }
+}
+
 static sexp verif_ctl(sexp ctx, sexp self, sexp_sint_t n, sexp op, sexp arg) {
   struct vh_heap_stats st;
   sexp_heap h;
@@ -87,6 +111,73 @@ static sexp verif_ctl(sexp ctx, sexp self, sexp_sint_t n, sexp op, sexp arg) {
   }
   if (!strcmp(s, "instrs")) return sexp_make_fixnum(vh_instrs);
   if (!strcmp(s, "gc")) { sexp_gc(ctx, NULL); return SEXP_TRUE; }
+  if (!strcmp(s, "who-refers")) {
+    /* debugging aid: objects with a slot equal to the address given as a fixnum */
+    sexp target = (sexp)(sexp_uint_t)sexp_unbox_fixnum(arg);
+    sexp_heap h2; sexp p2, end2; sexp_free_list q2, r2;
+    for (h2 = sexp_context_heap(ctx); h2; h2 = h2->next) {
+      p2 = sexp_heap_first_block(h2); end2 = sexp_heap_end(h2); q2 = h2->free_list;
+      while (p2 < end2) {
+        sexp t2; sexp *sl; size_t n2, k2;
+        for (r2 = q2->next; r2 && ((char *)r2 < (char *)p2); q2 = r2, r2 = r2->next) ;
+        if ((char *)r2 == (char *)p2) { p2 = (sexp)(((char *)p2) + r2->size); continue; }
+        t2 = sexp_object_type(ctx, p2);
+        sl = (sexp *)(((char *)p2) + sexp_type_field_base(t2));
+        n2 = sexp_type_num_slots_of_object(t2, p2);
+        if (sexp_pointer_tag(p2) == SEXP_STACK) n2 = sexp_stack_top(p2);
+        for (k2 = 0; k2 < n2; k2++) if (sl[k2] == target) {
+          printf(";;WHO %p <- %p tag=%u slot=%lu nslots=%lu", (void *)target, (void *)p2, (unsigned)sexp_pointer_tag(p2), (unsigned long)k2, (unsigned long)n2);
+          if (sexp_procedurep(p2)) { printf(" proc-name="); sexp_write(ctx, sexp_bytecode_name(sexp_procedure_code(p2)), sexp_current_output_port(ctx)); }
+          printf("\n");
+        }
+        p2 = (sexp)(((char *)p2) + sexp_heap_align(sexp_allocated_bytes(ctx, p2)));
+      }
+    }
+    fflush(stdout);
+    return SEXP_TRUE;
+  }
+  if (!strcmp(s, "dump-files")) {
+    /* debugging aid: every descriptor object and open port in the heap */
+    sexp_heap h; sexp p, end; sexp_free_list q, r;
+    for (h = sexp_context_heap(ctx); h; h = h->next) {
+      p = sexp_heap_first_block(h); end = sexp_heap_end(h); q = h->free_list;
+      while (p < end) {
+        for (r = q->next; r && ((char *)r < (char *)p); q = r, r = r->next) ;
+        if ((char *)r == (char *)p) { p = (sexp)(((char *)p) + r->size); continue; }
+        if (sexp_filenop(p)) {
+          sexp_heap h2; sexp p2, end2; sexp_free_list q2, r2;
+          printf(";;FILENO %p fd=%d open=%d count=%d noclose=%d\n", (void *)p, (int)sexp_fileno_fd(p), (int)sexp_fileno_openp(p), (int)sexp_fileno_count(p), (int)sexp_fileno_no_closep(p));
+          vh_who_refers(ctx, p, 0);
+          for (h2 = sexp_context_heap(ctx); h2; h2 = h2->next) {      /* who refers to it? */
+            p2 = sexp_heap_first_block(h2); end2 = sexp_heap_end(h2); q2 = h2->free_list;
+            while (p2 < end2) {
+              sexp t2; sexp *sl; size_t n2, k2;
+              for (r2 = q2->next; r2 && ((char *)r2 < (char *)p2); q2 = r2, r2 = r2->next) ;
+              if ((char *)r2 == (char *)p2) { p2 = (sexp)(((char *)p2) + r2->size); continue; }
+              t2 = sexp_object_type(ctx, p2);
+              sl = (sexp *)(((char *)p2) + sexp_type_field_base(t2));
+              n2 = sexp_type_num_slots_of_object(t2, p2);
+              if (sexp_pointer_tag(p2) == SEXP_STACK) n2 = sexp_stack_top(p2);
+              for (k2 = 0; k2 < n2; k2++) if (sl[k2] == p) {
+                printf(";;  REFERRED-BY %p tag=%u slot=%lu nslots=%lu addr=%lu\n", (void *)p2, (unsigned)sexp_pointer_tag(p2), (unsigned long)k2, (unsigned long)n2, (unsigned long)p2);
+                if (sexp_vectorp(p2)) { size_t z; for (z = 0; z < n2 && z < 12; z++) { printf(";;    [%lu] ", (unsigned long)z); sexp_write(ctx, sexp_pointerp(sl[z]) && !sexp_stringp(sl[z]) && !sexp_symbolp(sl[z]) && !sexp_pairp(sl[z]) ? sexp_make_fixnum(sexp_pointer_tag(sl[z])) : sl[z], sexp_current_output_port(ctx)); printf("\n"); } }
+              }
+              if (sexp_type_num_weak_slots_of_object(t2, p2) > 0) {
+                sexp *wv = (sexp *)(((char *)p2) + sexp_type_weak_base(t2));
+                if (wv[0] == p) printf(";;  WEAKLY-BY %p tag=%u\n", (void *)p2, (unsigned)sexp_pointer_tag(p2));
+              }
+              p2 = (sexp)(((char *)p2) + sexp_heap_align(sexp_allocated_bytes(ctx, p2)));
+            }
+          }
+        }
+        else if (sexp_portp(p) && sexp_port_openp(p) && (sexp_port_stream(p) || sexp_filenop(sexp_port_fd(p))))
+          printf(";;PORT %p stream=%p fdobj=%p\n", (void *)p, (void *)sexp_port_stream(p), (void *)sexp_port_fd(p));
+        p = (sexp)(((char *)p) + sexp_heap_align(sexp_allocated_bytes(ctx, p)));
+      }
+    }
+    fflush(stdout);
+    return SEXP_TRUE;
+  }
   if (!strcmp(s, "vclock")) return sexp_make_fixnum(ts_vclock_usec / 1000);
   return SEXP_FALSE;
 }
